@@ -67,6 +67,11 @@ func (h *huffmanOnly) encodeBlock(final bool, flush bool) error {
 		_, err := h.w.Write(h.buf.output[:h.buf.idx])
 		return err
 	}
+	if h.offset == 0 {
+		// nothing pending (e.g. Flush right after Flush): a block header
+		// without symbols and end-of-block code must not be started
+		return nil
+	}
 
 	bytesFreq(&h.hist, h.buffer[:h.offset])
 	h.hist.reduceCounts()
